@@ -18,7 +18,6 @@ import (
 	"os"
 	"regexp"
 	"sort"
-	"strconv"
 	"strings"
 
 	NoKV "github.com/feichai0017/NoKV"
@@ -35,8 +34,11 @@ import (
 //	t:<key>:<kind>       one transaction writing key; kind v small, V value-log sized, d delete,
 //	                     x already expired (absolute expiry 1), f expires far in the future
 //	t2                   one transaction writing a (small) and ab (value-log sized) together
-//	vs:<key>:<ver>:<k>   SetVersionedEntry at an explicit version (k = v|V)
-//	vd:<key>:<ver>       DeleteVersionedEntry
+//	vs:<key>:<k>         SetVersionedEntry (k = v|V) at an explicit version = greatest stored
+//	                     version + 2 (versions stay monotone with write order; the local
+//	                     oracle only learns about them at the next open, so transaction ops
+//	                     are disabled between a versioned write and the next reopen)
+//	vd:<key>             DeleteVersionedEntry at greatest stored version + 2
 //	p:<key>:<kind>       plain (non-transactional) write of the same kinds
 type params struct {
 	Name       string
@@ -48,6 +50,7 @@ type params struct {
 	Plain      bool // history uses the plain API only (no commit-version oracle)
 	BaseDir    string
 	MaintAllow map[string]bool
+	Macro      bool // offer "rf" (rotate + flush everything) instead of separate rotate / flush steps
 }
 
 type mkey struct {
@@ -76,6 +79,7 @@ type inst struct {
 	floor    uint64 // greatest version stored when the DB was last opened
 	floorAt  string // container class that held that version just before the close
 	reopened bool   // a reopen happened since the last commit
+	dirtyVer bool   // a versioned write happened since the last open
 	pending  string
 	pendDsc  string
 }
@@ -134,10 +138,22 @@ func (in *inst) Enabled() []string {
 	}
 	var ops []string
 	if in.nClient < in.p.MaxClient {
-		ops = append(ops, in.p.ClientOps...)
+		for _, op := range in.p.ClientOps {
+			if in.dirtyVer && (strings.HasPrefix(op, "t:") || op == "t2") {
+				continue
+			}
+			ops = append(ops, op)
+		}
 	}
 	if in.nMaint < in.p.MaxMaint {
+		rf := false
 		for _, op := range in.h.MaintMenu(false, false) {
+			if in.p.Macro && (op == "rotate" || op == "flush") {
+				if rf {
+					continue
+				}
+				rf, op = true, "rf"
+			}
 			cls := op
 			if i := strings.IndexByte(op, ':'); i >= 0 {
 				cls = op[:i]
@@ -374,14 +390,24 @@ func (in *inst) Apply(op string) (bool, error) {
 			in.lastTs = v
 		}
 	case "vs", "vd":
-		ver, _ := strconv.ParseUint(f[2], 10, 64)
+		var ver uint64
+		for k := range in.model {
+			if k.ver > ver {
+				ver = k.ver
+			}
+		}
+		if in.lastTs > ver {
+			ver = in.lastTs
+		}
+		ver += 2
+		in.dirtyVer = true
 		mv := mval{seq: in.seq}
 		var err error
 		if f[0] == "vd" {
 			mv.del = true
 			err = db.DeleteVersionedEntry(kv.CFDefault, []byte(f[1]), ver)
 		} else {
-			mv.val = in.value(f[3][0], f[1])
+			mv.val = in.value(f[2][0], f[1])
 			err = db.SetVersionedEntry(kv.CFDefault, []byte(f[1]), ver, mv.val, 0)
 		}
 		if err != nil {
@@ -446,7 +472,7 @@ func (in *inst) reopen() (bool, error) {
 		in.fail("scan-failed-after-reopen", "%s", fault)
 		return true, nil
 	}
-	in.floor, in.floorAt, in.reopened = maxVer, maxAt, true
+	in.floor, in.floorAt, in.reopened, in.dirtyVer = maxVer, maxAt, true, false
 	// differential oracle: identical internal scan before close and after open
 	am := map[mkey]entry{}
 	for _, e := range after {
@@ -479,6 +505,14 @@ func (in *inst) reopen() (bool, error) {
 // Check: the stored versions equal the model (absolute oracle), and point reads through a
 // new transaction / the plain API return the newest live version.
 func (in *inst) Check() (string, string) {
+	sig, desc := in.check()
+	if sig != "" && in.p.Cfg.Engine == "art" {
+		sig += " engine=art"
+	}
+	return sig, desc
+}
+
+func (in *inst) check() (string, string) {
 	if in.pending != "" {
 		return in.pending, in.pendDsc
 	}
@@ -557,7 +591,7 @@ func (in *inst) Key() string {
 		return ""
 	}
 	var sb strings.Builder
-	fmt.Fprintf(&sb, "c%d m%d r%d reopened=%v floor=%d last=%d\n", in.nClient, in.nMaint, in.nReopen, in.reopened, in.floor, in.lastTs)
+	fmt.Fprintf(&sb, "c%d m%d r%d reopened=%v dirty=%v floor=%d last=%d\n", in.nClient, in.nMaint, in.nReopen, in.reopened, in.dirtyVer, in.floor, in.lastTs)
 	ks := make([]mkey, 0, len(in.model))
 	for k := range in.model {
 		ks = append(ks, k)
@@ -585,17 +619,19 @@ type config struct {
 
 func configs(quick bool) []config {
 	allow := map[string]bool{"rotate": true, "flush": true, "l0-base": true, "ingest-drain": true}
+	_ = allow
 	small := dbh.Config{Engine: "skiplist", DetectConflicts: true}
 	art := dbh.Config{Engine: "art", DetectConflicts: true}
-	txnCore := []string{"t:a:v", "t:a:d", "vs:a:9:V", "t2"}
-	txnWide := []string{"t:a:v", "t:a:V", "t:a:d", "t:ab:f", "t:a:x", "t2", "vs:a:9:V", "vs:ab:5:v", "vd:a:7"}
+	txnCore := []string{"t:a:v", "t:a:d", "vs:a:V", "t2"}
+	txnWide := []string{"t:a:v", "t:a:V", "t:a:d", "t:ab:f", "t:a:x", "t2", "vs:a:V", "vs:ab:v", "vd:a"}
 	plain := []string{"p:a:v", "p:a:V", "p:a:d", "p:ab:f", "p:ab:x"}
 	if quick {
+		am := map[string]bool{"rf": true, "l0-base": true, "ingest-drain": true}
 		return []config{
-			{params{Name: "txn-core", Cfg: small, ClientOps: txnCore, MaxClient: 3, MaxMaint: 3, MaxReopen: 2, MaintAllow: allow}, 7},
-			{params{Name: "txn-wide-art", Cfg: art, ClientOps: txnWide, MaxClient: 2, MaxMaint: 2, MaxReopen: 2, MaintAllow: allow}, 5},
-			{params{Name: "plain", Cfg: small, ClientOps: plain, MaxClient: 2, MaxMaint: 3, MaxReopen: 2, Plain: true, MaintAllow: allow}, 6},
-			{params{Name: "txn-3reopen", Cfg: small, ClientOps: []string{"t:a:v", "vs:a:9:V"}, MaxClient: 3, MaxMaint: 1, MaxReopen: 3, MaintAllow: allow}, 7},
+			{params{Name: "txn-core", Cfg: small, ClientOps: txnCore, MaxClient: 3, MaxMaint: 2, MaxReopen: 2, MaintAllow: am, Macro: true}, 5},
+			{params{Name: "txn-wide-art", Cfg: art, ClientOps: txnWide, MaxClient: 2, MaxMaint: 1, MaxReopen: 1, MaintAllow: am, Macro: true}, 4},
+			{params{Name: "plain", Cfg: small, ClientOps: plain, MaxClient: 2, MaxMaint: 2, MaxReopen: 1, Plain: true, MaintAllow: am, Macro: true}, 4},
+			{params{Name: "txn-3reopen", Cfg: small, ClientOps: []string{"t:a:v"}, MaxClient: 3, MaxMaint: 0, MaxReopen: 3, MaintAllow: am, Macro: true}, 6},
 		}
 	}
 	return []config{
